@@ -33,12 +33,12 @@ def VLinInv (s : VSt) : Prop := specRunV {} s.lin = some s.spec
     operation of the sequential specification, recorded -/
 inductive VTrans (s s' : VSt) : Prop
   | frame (hs : s'.spec = s.spec) (hl : s'.lin = s.lin)
-  | eff (t : Nat) (op : VOp) (hs : s'.spec = (vEff s t op).1.spec) (hl : s'.lin = (vEff s t op).1.lin)
+  | eff (t i : Nat) (op : VOp) (hs : s'.spec = (vEff s t i op).1.spec) (hl : s'.lin = (vEff s t i op).1.lin)
 
 theorem vTrans_linInv {s s' : VSt} (hi : VLinInv s) (h : VTrans s s') : VLinInv s' := by
   cases h with
   | frame hs hl => unfold VLinInv; rw [hs, hl]; exact hi
-  | eff t op hs hl =>
+  | eff t i op hs hl =>
     unfold VLinInv at hi ⊢
     rw [hs, hl]
     simp only [vEff, specRunV_append, hi, Option.bind_some, specRunV, if_true]
@@ -46,7 +46,7 @@ theorem vTrans_linInv {s s' : VSt} (hi : VLinInv s) (h : VTrans s s') : VLinInv 
 theorem vTrans_lin_mono {s s' : VSt} (h : VTrans s s') : s.lin <+: s'.lin := by
   cases h with
   | frame hs hl => rw [hl]; exact List.prefix_refl _
-  | eff t op hs hl => rw [hl]; exact List.prefix_append _ _
+  | eff t i op hs hl => rw [hl]; exact List.prefix_append _ _
 
 theorem vStep_trans {s s' : VSt} {e : Ev} (h : vStep s e = .ok s') : VTrans s s' := by
   unfold vStep at h
@@ -64,16 +64,16 @@ theorem vStep_trans {s s' : VSt} {e : Ev} (h : vStep s e = .ok s') : VTrans s s'
         · rw [guard_ok] at h; obtain ⟨_, h⟩ := h
           rw [guard_ok] at h; obtain ⟨_, h⟩ := h
           split at h
-          · cases h; exact .eff e.tid _ rfl rfl
+          · cases h; exact .eff e.tid _ _ rfl rfl
           · cases h; exact .frame rfl rfl
         · split at h
           · rw [guard_ok] at h; obtain ⟨_, h⟩ := h
             rw [guard_ok] at h; obtain ⟨_, h⟩ := h
-            cases h; exact .eff e.tid _ rfl rfl
+            cases h; exact .eff e.tid _ _ rfl rfl
           · split at h
             · rw [guard_ok] at h; obtain ⟨_, h⟩ := h
               rw [guard_ok] at h; obtain ⟨_, h⟩ := h
-              cases h; exact .eff e.tid _ rfl rfl
+              cases h; exact .eff e.tid _ _ rfl rfl
             · cases h
       · -- rheld
         rw [guard_ok] at h; obtain ⟨_, h⟩ := h
@@ -84,7 +84,7 @@ theorem vStep_trans {s s' : VSt} {e : Ev} (h : vStep s e = .ok s') : VTrans s s'
         rw [guard_ok] at h; obtain ⟨_, h⟩ := h
         rw [guard_ok] at h; obtain ⟨_, h⟩ := h
         split at h
-        · cases h; exact .eff e.tid _ rfl rfl
+        · cases h; exact .eff e.tid _ _ rfl rfl
         · cases h
       · -- wheld
         rw [guard_ok] at h; obtain ⟨_, h⟩ := h
@@ -94,9 +94,9 @@ theorem vStep_trans {s s' : VSt} {e : Ev} (h : vStep s e = .ok s') : VTrans s s'
         rw [guard_ok] at h; obtain ⟨_, h⟩ := h
         split at h
         · rw [guard_ok] at h; obtain ⟨_, h⟩ := h
-          cases h; exact .eff e.tid _ rfl rfl
+          cases h; exact .eff e.tid _ _ rfl rfl
         · rw [guard_ok] at h; obtain ⟨_, h⟩ := h
-          cases h; exact .eff e.tid _ rfl rfl
+          cases h; exact .eff e.tid _ _ rfl rfl
       · -- collecting
         split at h
         · rw [guard_ok] at h; obtain ⟨_, h⟩ := h
